@@ -24,6 +24,7 @@ EXIT_OK, EXIT_VIOLATION, EXIT_ERROR, EXIT_INCONCLUSIVE = 0, 1, 2, 3
 
 _INTERP = None
 _SPECS = {}
+PROGRESS = bool(os.environ.get("PYSYM_PROGRESS"))
 
 
 class Spec:
@@ -345,6 +346,7 @@ def explore(spec, tier, seed=0, nproc=None, known_active=(), time_limit_s=None, 
         pool = ctx.Pool(nproc, initializer=_worker_init)
     if validate_rate is None:
         validate_rate = 1.0 if tier == "quick" else 0.25
+    last_print = [time.perf_counter()]
     try:
         done_paths = 0
         while queue or outstanding:
@@ -358,6 +360,9 @@ def explore(spec, tier, seed=0, nproc=None, known_active=(), time_limit_s=None, 
                     mx, ms = 80, 25.0
                 task = (spec.module, spec.name, tier, p, seed, tuple(known_active), mx, ms, validate_rate)
                 outstanding.add(pool.apply_async(_worker_task, (task,)))
+            if PROGRESS and time.perf_counter() - last_print[0] > 10:
+                last_print[0] = time.perf_counter()
+                print("  .. %s: %d paths done, %d prefixes queued, %d tasks out, %.0fs" % (spec.name, done_paths, len(queue), len(outstanding), time.perf_counter() - t0), flush=True)
             ready = [a for a in outstanding if a.ready()]
             if not ready:
                 time.sleep(0.005)
